@@ -57,7 +57,9 @@ assert ["{:" + spec_rust(s, "Debug") + "}" for s in TOP] == TOP_TXT
 ARGSPECS = [(mkspec(), "Display"), (mkspec(width=4, align="right"), "Display"), (mkspec(sign="plus"), "Display"),
             (mkspec(alt=True), "LowerHex"), (mkspec(zero=True, width=4), "LowerHex"),
             (mkspec(), "Debug"), (mkspec(alt=True), "Debug"), (mkspec(alt=True, dhex="x"), "Debug"),
-            (mkspec(dhex="x"), "Debug"), (mkspec(width=6), "Debug"), (mkspec(alt=True, zero=True, width=6), "Debug")]
+            (mkspec(dhex="x"), "Debug"), (mkspec(width=6), "Debug"), (mkspec(alt=True, zero=True, width=6), "Debug"),
+            (mkspec(), "LowerHex"), (mkspec(prec=1), "Display"), (mkspec(dhex="X"), "Debug"), (mkspec(sign="plus", prec=2), "Debug")]
+BARE_DEBUG = 5          # index of the plain `{:?}` placeholder
 
 # every configuration a leaf can meet, per trait: index -> spec
 CFGS = {"Debug": [], "Display": [], "LowerHex": []}
@@ -225,21 +227,36 @@ def binding(fs, i):
 
 
 def fmt_literal(fs, pieces):
-    """(format literal text, [extra positional argument expressions]) of a field-level attribute"""
+    """(format literal text, [extra argument expressions]) of a field-level attribute.
+    placeholder reference kinds: inline `{_0:..}` / `{name:..}`; pos `{:..}` + positional argument;
+    index `{0:..}` + positional argument (single-placeholder literals only); named `{v0:..}` + `v0 = field`"""
     lit = ""
     args = []
+    named = []
     for (l, k, ref) in pieces["parts"]:
         lit += l.replace("{", "{{").replace("}", "}}")
         sp, tr = ARGSPECS[k]
         st = spec_rust(sp, tr)
+        st = ":" + st if st else ""
         b = binding(fs, ref[1])
-        if ref[0] == "inline" and not b.startswith("r#"):
-            lit += "{" + b + (":" + st if st else "") + "}"
+        kind = ref[0]
+        if kind == "inline" and b.startswith("r#"):
+            kind = "pos"
+        if kind == "inline":
+            lit += "{" + b + st + "}"
+        elif kind == "named":
+            nm = "v%d" % len(named)
+            lit += "{" + nm + st + "}"
+            named.append("%s = %s" % (nm, b))
+        elif kind == "index":
+            assert len(pieces["parts"]) == 1
+            lit += "{0" + st + "}"
+            args.append(b)
         else:
-            lit += "{" + (":" + st if st else "") + "}"
+            lit += "{" + st + "}"
             args.append(b)
     lit += pieces["tail"].replace("{", "{{").replace("}", "}}")
-    return lit, args
+    return lit, args + named
 
 
 def fmt_attr_tokens(fs, pieces):
@@ -670,8 +687,22 @@ class Gen:
             ok = [k for k, (sp, tr) in enumerate(ARGSPECS)
                   if tr == "Debug" or (t[0] == "leaf" and tr in LEAF_TYPES[t[1]][2])]
             k = r.choice(ok)
-            parts.append([r.choice(["", "<", " = ", "{x}", "l\n"]), k, [r.choice(["inline", "pos"]), j]])
+            parts.append([r.choice(["", "<", " = ", "{x}", "l\n"]), k, [r.choice(["inline", "pos", "named"]), j]])
         return {"parts": parts, "tail": r.choice(["", ">", " end", "}"])}
+
+    def arg_specs_for(self, t):
+        return [k for k, (sp, tr) in enumerate(ARGSPECS)
+                if tr == "Debug" or (t[0] == "leaf" and tr in LEAF_TYPES[t[1]][2])]
+
+    def bare_pieces(self, fs, i, p_plain=0.6):
+        """a literal that is exactly one placeholder (no text): `{_0:?}`, `{:?}` + one argument, `{name:?}`,
+        `{0:?}`, `{v0:?}` + `v0 = field`; mostly the plain `{:?}`, otherwise any spec/trait the field supports"""
+        r = self.rng
+        n = len(fs["list"])
+        j = i if r.random() < 0.8 else r.randrange(n)
+        ok = self.arg_specs_for(fs["list"][j]["ty"])
+        k = BARE_DEBUG if r.random() < p_plain else r.choice(ok)
+        return {"parts": [["", k, [r.choice(["inline", "pos", "index", "named"]), j]]], "tail": ""}
 
     def struct(self, case, name, kind, n, adts, params=(), **kw):
         nparams = [p for p in params]
@@ -700,3 +731,19 @@ class Gen:
 def canon(case):
     import json
     return json.dumps(case, sort_keys=True)
+
+
+def value_has_fmt_attr(case, v):
+    """does formatting v reach a struct/variant carrying a field-level format attribute?"""
+    k = v[0]
+    if k in ("leaf", "none"):
+        return False
+    if k in ("some", "box", "ref"):
+        return value_has_fmt_attr(case, v[1])
+    if k in ("vec", "arr", "tup"):
+        return any(value_has_fmt_attr(case, x) for x in v[1])
+    it = case["items"][v[1]]
+    fs = it["fields"] if it["kind"] == "struct" else it["variants"][v[2]]["fields"]
+    if any(f["attr"] and f["attr"][0] == "fmt" for f in fs["list"]):
+        return True
+    return any(value_has_fmt_attr(case, x) for x in v[3])
